@@ -20,6 +20,8 @@ func main() {
 	progress := flag.String("progress", "", "progress file (case id written before each case)")
 	only := flag.Int("case", -1, "run only this case index (replay)")
 	scale := flag.Float64("scale", 1, "scale case counts (calibration)")
+	shard := flag.Int("shard", 0, "shard index")
+	shards := flag.Int("shards", 1, "number of shards (cases are split by index modulo shards)")
 	flag.Parse()
 
 	fn, ok := props.Registry[*prop]
@@ -34,6 +36,7 @@ func main() {
 	}
 	ctx.OnlyCase = *only
 	ctx.Scale = *scale
+	ctx.Shard, ctx.Shards = *shard, *shards
 	complete := false
 	func() {
 		defer func() {
